@@ -418,6 +418,250 @@ def run(chk, repo):
     wl = [n for n in ast.walk(bg) if isinstance(n, ast.If) and unparse(n.test) == "len(wnd) != size"]
     chk.decide(len(wl) == 1 and "ValueError" in unparse(wl[0].body[0]), "C09.order", Wb, "window length checked against size",
                why="a window of another length would silently truncate the blocks", node=bg)
+    _dispatch(chk, repo, mod, W, wr, bg)
+
+
+def _dispatch(chk, repo, mod, W, wr, bg):
+    """which preparation for which kind of window / option (decision tables, sa/dtable.py)"""
+    from ..dtable import Facts, walk
+    chk.rule("C09.dispatch", "decision tables: how overlap_add (both strategies) and stft's blk_gen prepare the window for "
+                             "every kind of wnd (None, callable, list, Stream, anything else), which numpy defaults are "
+                             "imported for which unspecified stage, which normalisation for which (normalize, window) "
+                             "pair, which keyword goes where in the stft wrapper - the statements that run must be the "
+                             "documented ones, whatever the order and spelling of the tests")
+    n_tab = 0
+    WK = {"None": None, "callable": {"function"}, "list": {"list", "Sequence", "Iterable"}, "Stream": {"Stream", "Iterable"},
+          "number": {"float"}}
+
+    def wnd_facts(wk, extra_truths=None, **kw):
+        tr = {"callable(wnd)": wk in ("callable", "Stream")}
+        tr.update(extra_truths or {})
+        return Facts(kinds={} if wk == "None" else {"wnd": WK[wk]}, none=["wnd"] if wk == "None" else [], truths=tr,
+                     types={"Stream", "Iterable", "Sequence"}, **kw)
+
+    def wnd_rebind(name, value, F_):
+        F_.forget(name)
+        if name == "wnd":
+            tx = unparse(value)
+            if tx == "wnd(size)":
+                F_.kinds["wnd"] = {"list", "Sequence", "Iterable"}
+                F_.truths["callable(wnd)"] = False
+                F_.lens["wnd"] = 4
+            elif tx.startswith(("list(", "np.array(", "np.hstack(", "np.ones(", "[")):
+                F_.kinds["wnd"] = {"list", "Sequence", "Iterable", "ndarray"}
+                F_.truths["callable(wnd)"] = False
+                F_.lens["wnd"] = 4
+
+    def sec_ola():
+        nonlocal n_tab
+        for sname in ("list", "numpy"):
+            fn = repo.strategy(LA, "overlap_add", sname).node
+            body = docstring_free(fn.body)
+            # the statements between the defaults and the normalisation: window resolution
+            start = [i for i, st in enumerate(body) if isinstance(st, ast.If) and unparse(st.test) in ("hop is None",)]
+            chk.require(start, "overlap_add.%s: 'hop is None' default not found" % sname)
+            stop = [i for i, st in enumerate(body) if isinstance(st, ast.If) and unparse(st.test) in ("normalize", "not normalize")]
+            chk.require(stop and stop[0] > start[0], "overlap_add.%s: normalisation block not found" % sname)
+            res = body[start[0] + 1:stop[0]]
+            for wk in ("None", "callable", "list", "Stream", "number"):
+                w = walk(res, wnd_facts(wk), "overlap_add.%s window" % sname, rebind=wnd_rebind)
+                n_tab += 1
+                t = w.texts()
+                called = "wnd = wnd(size)" in t
+                if sname == "list":
+                    conv = [x for x in t if x == "wnd = list(wnd)"]
+                    want_conv = wk in ("callable", "list", "Stream")
+                    unit = False
+                    want_unit = False
+                else:
+                    conv = [x for x in t if x in ("wnd = np.array(wnd)", "wnd = np.hstack(wnd)")]
+                    want_conv = wk != "number"
+                    unit = "wnd = np.ones(size)" in t
+                    want_unit = wk == "None"
+                    if wk == "Stream":
+                        want_conv = conv == ["wnd = np.hstack(wnd)"]
+                if wk == "number":
+                    ok = w.end == "raise" and w.last is not None and "TypeError" in unparse(w.last) and not called
+                else:
+                    ok = w.end == "fall" and called == (wk == "callable") and (len(conv) == 1) == bool(want_conv) and unit == want_unit
+                    if ok and called:
+                        ok = t.index("wnd = wnd(size)") < t.index(conv[0])
+                chk.decide(ok, "C09.dispatch", W("overlap_add[%s]" % sname), "wnd=<%s>: %s" % (wk, "; ".join(t)[:110] or "left as it is"),
+                           why="None -> no window (ones); a callable that is not a Stream is called with size; lists, Streams "
+                               "and call results are materialised; anything else is a TypeError", node=fn)
+            # normalisation and application (list strategy: explicit arms)
+            if sname == "list":
+                rest = body[stop[0]:]
+                rest = [st for st in rest if not isinstance(st, ast.For)]
+                for norm in (True, False):
+                    for has in (True, False):
+                        F = Facts(truths={"normalize": norm, "gain": True}, lens={"wnd": 4 if has else 0},
+                                  none=[] if has else ["wnd"], kinds={"wnd": {"list"}} if has else {}, values={"size": 4})
+
+                        def rb2(name, value, F_):
+                            F_.forget(name)
+                            if name == "wnd":
+                                F_.kinds["wnd"] = {"list"}
+                                F_.lens["wnd"] = 4
+                                F_.none.discard("wnd")
+                            if name == "gain":
+                                F_.truths["gain"] = True
+                        w = walk(rest, F, "overlap_add.list normalisation", rebind=rb2, strict=False)
+                        n_tab += 1
+                        t = w.texts()
+                        gain = any(x.startswith("gain = ") for x in t)
+                        scaled = any((x.startswith("wnd[:] = ") or x.startswith("wnd = ")) and "/ gain" in x for x in t)
+                        rect = [x for x in t if x.startswith("wnd = [1 / ceil(size / hop)] * size") or x.startswith("wnd = [1.0 / ceil(size / hop)] * size")]
+                        applied = any("blk_sig = " in x and "wnd" in x for x in t)
+                        want = dict(gain=norm and has, scaled=norm and has, rect=norm and not has, applied=has or norm)
+                        got = dict(gain=gain, scaled=scaled, rect=bool(rect), applied=applied)
+                        chk.decide(got == want and w.end == "fall", "C09.dispatch", W("overlap_add[list]"),
+                                   "normalize=%s, %s: %s" % (norm, "window given" if has else "no window",
+                                                               ", ".join(k for k, v in sorted(got.items()) if v) or "nothing"),
+                                   why="normalisation divides a given window by its overlap gain, or builds the constant "
+                                       "1/ceil(size/hop) window; a window (given or built) is applied to every block", node=fn)
+
+    def sec_emit():
+        nonlocal n_tab
+        for sname in ("list", "numpy"):
+            fn = repo.strategy(LA, "overlap_add", sname).node
+            dflt = [unparse(d) for d in fn.args.defaults]
+            chk.decide(dflt == ["None", "None", "None", "True"], "C09.dispatch", W("overlap_add[%s]" % sname),
+                       "defaults (size, hop, wnd, normalize) = %s" % dflt,
+                       why="size and hop are found from the data, no window, normalised output", node=fn)
+            body = docstring_free(fn.body)
+            emits = []
+            for lp in [n for n in ast.walk(fn) if isinstance(n, ast.For)]:
+                if isinstance(lp.iter, ast.Subscript) and isinstance(lp.iter.slice, ast.Slice) and isinstance(lp.target, ast.Name):
+                    emits.append(lp)
+            chk.require(len(emits) == 2, "overlap_add.%s: the two emitting loops not found" % sname)
+            for lp in emits:
+                okb = len(lp.body) == 1 and isinstance(lp.body[0], ast.Expr) and isinstance(lp.body[0].value, ast.Yield) \
+                    and unparse(lp.body[0].value.value) == lp.target.id and not lp.orelse
+                chk.decide(okb, "C09.dispatch", W("overlap_add[%s]" % sname), "for %s in %s: %s" % (lp.target.id, unparse(lp.iter),
+                                                                                                 "; ".join(unparse(b) for b in lp.body)),
+                           why="every sample of the finished part is handed out, once, as it is", node=lp)
+            if sname == "list":
+                main = [st for st in body if isinstance(st, ast.For)][0]
+                inner_ifs = [st for st in main.body if isinstance(st, ast.If)]
+                for wrong in (False, True):
+                    F = Facts(truths={"len(mem) != size": wrong, "len(mem) == size": not wrong})
+                    w = walk(inner_ifs, F, "overlap_add.list block size check")
+                    n_tab += 1
+                    ok = (w.end == "raise" and "ValueError" in unparse(w.last)) if wrong else w.end == "fall"
+                    chk.decide(ok, "C09.dispatch", W("overlap_add[list]"), "block of the %s size -> %s"
+                               % ("wrong" if wrong else "declared", unparse(w.last) if w.last is not None else "accepted"),
+                               why="a block of another size is refused, a good one is not", node=main)
+
+    def sec_blkgen():
+        nonlocal n_tab
+        body = docstring_free(bg.body)
+        lo = [i for i, st in enumerate(body) if isinstance(st, ast.If) and "callable(wnd)" in unparse(st.test)]
+        hi = [i for i, st in enumerate(body) if isinstance(st, ast.Assign) and unparse(st.targets[0]) == "trans"]
+        chk.require(lo and hi and lo[0] < hi[0], "blk_gen: window resolution not found")
+        res = body[lo[0]:hi[0]]
+        for wk in ("None", "callable", "list", "Stream", "number"):
+            for fits in (True, False):
+                F = wnd_facts(wk, lens={"wnd": 4} if wk in ("list", "Stream") else {}, values={"size": 4 if fits else 5})
+                w = walk(res, F, "blk_gen window", rebind=wnd_rebind)
+                n_tab += 1
+                t = w.texts()
+                last = unparse(w.last) if w.last is not None else ""
+                if wk == "number":
+                    ok = w.end == "raise" and "TypeError" in last
+                elif wk == "None":
+                    ok = w.end == "fall" and not t
+                elif not fits:
+                    ok = w.end == "raise" and "ValueError" in last
+                else:
+                    ok = w.end == "fall" and ("wnd = wnd(size)" in t) == (wk == "callable") and "wnd = list(wnd)" in t
+                chk.decide(ok, "C09.dispatch", W("stft[rfft].wrapper.blk_gen"),
+                           "wnd=<%s>%s: %s" % (wk, "" if fits else " of another length", "; ".join(t)[:90] or "left as it is"),
+                           why="as in overlap_add, plus ValueError when the window length is not the block size", node=bg)
+        # numpy defaults
+        want_imp = {"transform": "rfft", "inverse_transform": "irfft", "before": "ifftshift", "after": "fftshift"}
+        head = body[:lo[0]]
+        for unspecified in ([], ["transform"], ["inverse_transform"], ["before"], ["after"], list(want_imp)):
+            F = Facts(truths=dict(("%s is NotSpecified" % k, k in unspecified) for k in want_imp))
+            F.truths.update(dict(("%s is not NotSpecified" % k, k not in unspecified) for k in want_imp))
+            w = walk(head, F, "blk_gen defaults")
+            n_tab += 1
+            got = {}
+            for st in w.ran:
+                if isinstance(st, ast.ImportFrom) and st.module == "numpy.fft":
+                    for al in st.names:
+                        got[al.asname or al.name] = al.name
+            chk.decide(got == dict((k, want_imp[k]) for k in unspecified), "C09.dispatch", W("stft[rfft].wrapper.blk_gen"),
+                       "unspecified %s -> numpy.fft %s" % (unspecified or "nothing", sorted(got.items()) or "nothing imported"),
+                       why="a stage that was given (even None) is never replaced; an unspecified one gets its numpy default", node=bg)
+        # with / without window
+        tailb = [st for st in body[hi[0]:] if isinstance(st, ast.If)]
+        for has in (False, True):
+            F = Facts(none=[] if has else ["wnd"], kinds={"wnd": {"list"}} if has else {}, lens={"wnd": 4} if has else {})
+            w = walk(tailb[-1:], F, "blk_gen emit")
+            n_tab += 1
+            allt = "\n".join(w.texts())
+            uses = "wnd" in allt
+            chk.decide(uses == has and "yield process(" in allt, "C09.dispatch", W("stft[rfft].wrapper.blk_gen"),
+                       "%s window -> blocks %s" % ("with" if has else "without", "multiplied by it" if uses else "processed as they are"),
+                       why="blocks are windowed exactly when a window was given", node=bg)
+
+    def sec_wrapper():
+        nonlocal n_tab
+        wb = docstring_free(wr.body)
+        guards = []
+        for st in wb:
+            if isinstance(st, ast.Assign) and unparse(st.targets[0]) == "blk_params":
+                break
+            if isinstance(st, ast.If):
+                guards.append(st)
+        for has_size in (True, False):
+            for hopk in ("absent", "small", "large"):
+                F = Facts(truths={"'size' not in kws": not has_size, "'size' in kws": has_size,
+                                  "'hop' in kws": hopk != "absent", "'hop' not in kws": hopk == "absent",
+                                  "kws['hop'] > kws['size']": hopk == "large", "kws['hop'] <= kws['size']": hopk == "small",
+                                  "kws['size'] < kws['hop']": hopk == "large"},
+                          raising=["kws['hop'] > kws['size']", "kws['hop'] <= kws['size']", "kws['size'] < kws['hop']"] if hopk == "absent" else [])
+                w = walk(guards, F, "stft wrapper guards")
+                n_tab += 1
+                last = unparse(w.last) if w.last is not None else ""
+                if not has_size:
+                    ok = w.end == "raise" and "TypeError" in last
+                elif hopk == "large":
+                    ok = w.end == "raise" and "ValueError" in last
+                else:
+                    ok = w.end == "fall"
+                chk.decide(ok, "C09.dispatch", W("stft[rfft].wrapper"),
+                           "size %s, hop %s -> %s" % ("given" if has_size else "missing", hopk, last[:60] or ("accepted" if w.end == "fall" else "guard raises")),
+                           why="size is required; a hop larger than size is refused; anything else is accepted", node=wr)
+        for st in ast.walk(wr):
+            if isinstance(st, ast.Assign) and len(st.targets) == 1 and isinstance(st.targets[0], ast.Subscript) \
+                    and isinstance(st.value, ast.Call) and unparse(st.value.func) == "kws.pop" and unparse(st.targets[0].value) == "blk_params":
+                chk.decide(len(st.value.args) >= 1 and unparse(st.value.args[0]) == unparse(st.targets[0].slice), "C09.dispatch",
+                           W("stft[rfft].wrapper"), short(st), why="each option is popped under its own name", node=st)
+        loops = [st for st in wb if isinstance(st, ast.For) and "kws" in unparse(st.iter) and isinstance(st.target, ast.Tuple)]
+        chk.require(len(loops) == 1, "stft wrapper: loop over the remaining keywords not found")
+        kname = unparse(loops[0].target.elts[0])
+        for is_ola in (True, False):
+            for has_ola in (True, False):
+                F = Facts(truths={"%s.startswith('ola_')" % kname: is_ola, "ola is not None": has_ola, "ola is None": not has_ola},
+                          none=[] if has_ola else ["ola"], kinds={"ola": {"function"}} if has_ola else {})
+                w = walk(loops[0].body, F, "stft wrapper keywords")
+                n_tab += 1
+                t = w.texts()
+                if is_ola and has_ola:
+                    ok = w.end == "fall" and len(t) == 1 and t[0].startswith("ola_params[") or (w.end == "fall" and len(t) == 1 and "[%s[len('ola_'):]] = " % kname in t[0])
+                else:
+                    ok = w.end == "raise" and "TypeError" in unparse(w.last)
+                chk.decide(ok, "C09.dispatch", W("stft[rfft].wrapper"),
+                           "%s keyword, ola %s -> %s" % ("ola_*" if is_ola else "other", "given" if has_ola else "None", "; ".join(t)[:80]),
+                           why="ola_* options reach the overlap-add strategy when there is one; every other leftover is a TypeError", node=wr)
+    for sec in (sec_ola, sec_emit, sec_blkgen, sec_wrapper):
+        try:
+            sec()
+        except AnalysisError as ex:
+            chk.defer(str(ex))
+    chk.floor("C09.dispatch", n_tab, 40, "scenarios walked")
 
 
 def _list_variant(chk, mod, Wn, fn, body, main, flush, env, size, hop):
